@@ -536,7 +536,10 @@ class CallMixin:
     def str_method(self, st, s, name, args, kw, node):
         t = s.t
         if name == 'lower':
-            return [(st, SV(TStr, strops.lower(t)))]
+            lt = strops.lower(t)
+            st.fact((z3.Length(lt) == 0) == (z3.Length(t) == 0))
+            st.fact(strops.lower(lt) == lt)
+            return [(st, SV(TStr, lt))]
         if name == 'upper':
             return [(st, SV(TStr, strops.upper(t)))]
         if name in ('strip', 'rstrip', 'lstrip') and not args:
